@@ -14,6 +14,7 @@ simulation_model().equation(name, t) at two times.  Oracles:
 A document that fails to compile is bisected down to the offending equation(s).
 """
 import json
+import os
 
 from mc import core, refsd, xmile
 
@@ -432,8 +433,58 @@ def check_modules(b_root, b_sub):
     return viol, n
 
 
+RECOMPILE = [("a + b", "a * b"), ("a * b", "a * b + c"), ("IF a > b THEN a ELSE b", "IF a > b THEN b ELSE a"), ("a - b", "a - b"), ("a / b", "b / a")]
+
+
+def check_recompile(b, pairs=None):
+    """several documents written first and then transpiled one after another into the SAME destination file: each compile yields
+    the model of the document it was given (the destination already exists and is newer than the source it is compiled from)"""
+    import importlib.util
+    from BPTK_Py.sdcompiler.compile import compile_xmile
+    viol = []
+    d = core.scratch_dir()
+    for n, pair in enumerate(pairs or RECOMPILE):
+        dest = os.path.join(d, "rc_%d_%d.py" % (os.getpid(), n))
+        srcs = []
+        for j, eqn in enumerate(pair):
+            src = os.path.join(d, "rc_%d_%d_%d.stmx" % (os.getpid(), n, j))
+            with open(src, "w", encoding="utf-8") as f:
+                f.write(xmile.document(base_vars(b) + [{"kind": "aux", "name": "u", "eqn": eqn}], 0, 10, 1))
+            srcs.append(src)
+        try:
+            for j, (src, eqn) in enumerate(zip(srcs, pair)):
+                if j:
+                    os.utime(src, (os.path.getmtime(dest) - 5, os.path.getmtime(dest) - 5))     # (an older, timestamp-preserving copy)
+                compile_xmile(src, dest, "py")
+                name = "rc_%d_%d_%d" % (os.getpid(), n, j)
+                spec = importlib.util.spec_from_file_location(name, dest)
+                mod = importlib.util.module_from_spec(spec)
+                spec.loader.exec_module(mod)
+                sim = mod.simulation_model()
+                v = sim.equation(xmile.find_key(sim, "u"), 1)
+                env = dict(b)
+                want = {"a + b": env["a"] + env["b"], "a * b": env["a"] * env["b"], "a * b + c": env["a"] * env["b"] + env["c"], "a - b": env["a"] - env["b"],
+                        "a / b": env["a"] / env["b"], "b / a": env["b"] / env["a"],
+                        "IF a > b THEN a ELSE b": max(env["a"], env["b"]), "IF a > b THEN b ELSE a": min(env["a"], env["b"])}[eqn]
+                if not core.close(v, want, rel=1e-9, ab=1e-9):
+                    viol.append(("recompile-into-existing-destination/%d" % j, {"recompile": list(pair), "binding": b},
+                                 "document #%d (u = %s) transpiled into a destination that already held document #%d: u = %r, want %r" % (j, eqn, j - 1, v, want)))
+                    break
+        except Exception as e:
+            viol.append(("recompile-raises/%s" % type(e).__name__, {"recompile": list(pair), "binding": b}, repr(e)[:200]))
+        finally:
+            for p_ in srcs + [dest]:
+                try:
+                    os.remove(p_)
+                except OSError:
+                    pass
+    return viol, len(pairs or RECOMPILE)
+
+
 def _work_misc(arg):
     kind, b = arg
+    if kind == "recompile":
+        return check_recompile(b)
     if kind == "names":
         return check_names(b)
     if kind == "modules":
@@ -496,9 +547,9 @@ def run(ctx):
                 ctx.violation("C03/value/%s/%s" % (sp, sk), {"ast": trees[i], "spelling": sp, "binding": detail["binding"]}, detail)
     for i in range(0, len(trees), max(1, len(trees) // 6)):
         samples.append({"ast": skeleton(trees[i]), "min": eq_text(trees[i], "min", bs[0]), "full": eq_text(trees[i], "full", bs[0])})
-    misc = core.pmap(_work_misc, [("names", bs[0]), ("unsupported", bs[0]), ("modules", bs[0])])
+    misc = core.pmap(_work_misc, [("names", bs[0]), ("unsupported", bs[0]), ("modules", bs[0]), ("recompile", bs[0])])
     n_names, names_rejected = misc[0][1]
-    n_unsup = misc[1][1] + misc[2][1]
+    n_unsup = misc[1][1] + misc[2][1] + misc[3][1]
     for viol, _ in misc:
         for sig, case, detail in viol:
             ctx.violation("C03/" + sig, case, detail)
@@ -532,6 +583,9 @@ def replay(case):
         except Exception:
             return None
         return "evaluated to %r" % (v,)
+    if "recompile" in case:
+        viol, _ = check_recompile(case["binding"], [tuple(case["recompile"])])
+        return viol or None
     if "module_ast" in case:
         global MODULE_ASTS
         MODULE_ASTS = [case["module_ast"]]
